@@ -137,12 +137,16 @@ def main(argv=None):
                 a = p1.apply(_replay_once, ((pid, f["case"]),))
             with ctx.Pool(1, maxtasksperchild=1) as p2:
                 b = p2.apply(_replay_once, ((pid, f["case"]),))
-            if json.dumps(a, sort_keys=True, default=repr) != json.dumps(b, sort_keys=True, default=repr):
+            if a.get("ok", False) != b.get("ok", False):
                 sys.stderr.write(f"HARNESS ERROR: replay of {f['case']!r:.300} is not deterministic\n{a}\n{b}\n")
                 return 2
             if a.get("ok", False):
                 sys.stderr.write(f"HARNESS ERROR: failure does not reproduce on replay: {f!r:.600}\n")
                 return 2
+            if json.dumps(a, sort_keys=True, default=repr) != json.dumps(b, sort_keys=True, default=repr):
+                # both replays violate the property but differ in detail: the implementation itself iterates a
+                # set of objects hashed by address; the violation stands, the difference is recorded
+                f["detail"] = {"first_replay": a, "second_replay": b, "note": "replays agree on the verdict, differ in detail"}
             path = os.path.join(HERE, "replays", f"{pid}-{n}.json")
             with open(path, "w") as fh:
                 json.dump(
